@@ -519,7 +519,7 @@ func parseContent(contentMap map[string]any) (Content, error) {
 		return parseTextContent(contentMap)
 	case "image":
 		return parseImageContent(contentMap)
-	case "resource":
+	case ContentTypeEmbeddedResource, "embedded_resource": // "embedded_resource": what earlier versions of this library sent
 		return parseResourceContent(contentMap)
 	default:
 		return nil, fmt.Errorf("unsupported content type: %s", contentType)
